@@ -21,6 +21,7 @@ MODULES = {
     "vk_fs": "filesystem/mod.rs",
     "vk_fat": "fat/volume.rs",
     "vk_sd": "sdcard/mod.rs",
+    "vk_fsop": "volume_mgr.rs",
 }
 # harness module -> rust path of the module
 MODPATH = {
@@ -34,6 +35,7 @@ MODPATH = {
     "vk_fs": "filesystem::vk_fs",
     "vk_fat": "fat::volume::vk_fat",
     "vk_sd": "sdcard::vk_sd",
+    "vk_fsop": "volume_mgr::vk_fsop",
 }
 
 
@@ -235,10 +237,12 @@ H("C05", "vk_fat", "c05_alloc16_a_3e_p2_zero", tier="thorough", desc=_ad, bounds
 H("C05", "vk_fat", "c05_alloc16_a_38_p4_zero", tier="thorough", desc=_ad, bounds="free map 0x38, prev 4, zero=True, hint None", unwindset=UW_ALLOC, timeout=600, cost=2, mem_gb=16)
 H("C05", "vk_fat", "c05_alloc16_a_30_p5_zero", tier="thorough", desc=_ad, bounds="free map 0x30, prev 5, zero=True, hint None", unwindset=UW_ALLOC, timeout=600, cost=2, mem_gb=16)
 PROPS["C04"] = dict(bounds="(in progress)", outside="")
-H("C04", "vk_fat", "c04_update_fat16_frame", desc="update_fat FAT16: only the addressed entry changes; only FAT sector written", bounds="FAT sector fully symbolic, cluster 2..8 symbolic")
+H("C04", "vk_fat", "c04_update_fat16_frame_c3", desc="update_fat FAT16: only the addressed entry changes; only FAT sector written", bounds="FAT sector fully symbolic, new value symbolic, cluster 3", mem_gb=20)
+H("C04", "vk_fat", "c04_update_fat16_frame_c255", tier="thorough", desc="update_fat FAT16 frame, last entry of the sector", bounds="cluster 255", mem_gb=20)
 H("C04", "vk_fat", "c04_cluster_to_block_in_data_area", desc="cluster_to_block inside the data area for fully symbolic geometry", bounds="all geometries satisfying the mount invariant, bpc 1..128")
 PROPS["C16"] = dict(bounds="(in progress)", outside="")
-H("C16", "vk_fat", "c16_update_fat32_both_copies", desc="update_fat FAT32 2 FATs: both copies written and identical; high nibble preserved; frame", bounds="FAT sector fully symbolic, cluster 2..8 symbolic")
+H("C16", "vk_fat", "c16_update_fat32_both_copies_c5", desc="update_fat FAT32 2 FATs: both copies written and identical; high nibble preserved; frame", bounds="both FAT sectors fully symbolic, new value symbolic, cluster 5", mem_gb=20)
+H("C16", "vk_fat", "c16_update_fat32_both_copies_c127", tier="thorough", desc="same, last entry of the sector", bounds="cluster 127", mem_gb=20)
 
 # ---------------------------------------------------------------------------
 # C12 / C13 / C14 SD card driver
@@ -268,7 +272,7 @@ UW_SD_EVIL = UW_SD[:3] + [("acquire", r"for _ in 0\\.\\.0xFF", 256), ("acquire",
 _stub = ["-Z", "stubbing"]
 H("C13", "vk_sd", "c13_delay_budget_step", desc="Delay::delay fails exactly when the budget is 0, else decrements by one", bounds="all 2^32 budgets")
 H("C13", "vk_sd", "c13_bounded_card_command", desc="adversarial peer (every MISO byte arbitrary, bus error at any byte): card_command returns within 2(B+1)+7 bytes", bounds="any command/argument, Delay budgets stubbed <= 2", kani_args=_stub, unwindset=UW_SD_EVIL, timeout=900, cost=2)
-H("C13", "vk_sd", "c13_bounded_read_single", desc="adversarial peer: single-block read bounded; bus error => Err", bounds="budgets <= 2", kani_args=_stub, unwindset=UW_SD_EVIL, timeout=1800, cost=4, mem_gb=24)
+H("C13", "vk_sd", "c13_bounded_read_single", tier="thorough", desc="adversarial peer: single-block read bounded; bus error => Err", bounds="budgets <= 2", kani_args=_stub, unwindset=UW_SD_EVIL, timeout=1800, cost=4, mem_gb=24)
 H("C13", "vk_sd", "c13_bounded_write_single", desc="adversarial peer: single-block write bounded; bus error => Err", bounds="budgets <= 2", kani_args=_stub, unwindset=UW_SD_EVIL, timeout=1800, cost=4, mem_gb=24)
 H("C13", "vk_sd", "c13_bounded_acquire", tier="thorough", desc="adversarial peer: initialisation bounded; failed init leaves card_type None", bounds="budgets <= 2, acquire_retries 1", kani_args=_stub, unwindset=UW_SD_EVIL, timeout=7200, cost=8, mem_gb=30)
 # C14: the protocol monitor assertions (labels sd.proto / sd.addr) of the same harnesses
@@ -277,3 +281,52 @@ for n, t in [("c12_acquire_probe", "quick"), ("c12_acquire_sdhc_crc", "quick"), 
 H("C14", "vk_sd", "c14_reinit_after_uninit", desc="re-initialisation after mark_card_uninit from a ready card: legal conversation, card initialised again", bounds="SDHC, CRC before/after symbolic", unwindset=UW_SD, timeout=900, cost=2)
 for n, t in [("c12_read1_sdhc_crc", "quick"), ("c12_write1_sdhc_crc", "quick"), ("c12_read2_sdhc_crc", "thorough"), ("c12_write2_sdhc_crc", "thorough"), ("c12_read2_sd2_nocrc", "thorough"), ("c12_write2_sd1_nocrc", "thorough")]:
     H("C14", "vk_sd", n, tier=t, desc="data transfer conversation legal: data commands only when ready, token + 512 bytes + 2 CRC bytes (valid when CRC on), host idle while card sends, CMD18 ended by CMD12, CMD25 by the stop token, nothing sent while busy", bounds="memory/payload symbolic, timing per instance", unwindset=UW_SD, timeout=3600, cost=5, mem_gb=30)
+
+# ---------------------------------------------------------------------------
+# C06 directory listing / lookup
+# ---------------------------------------------------------------------------
+PROPS["C06"] = dict(
+    bounds="directory contents fully symbolic (every byte of every slot: live, deleted, long-name, volume-label slots and end "
+           "markers arise as values): FAT16 fixed root of 16 slots; FAT32 root of 2 clusters (chain 2->4); FAT16 sub-directory of 2 "
+           "clusters (chain 3->5); looked-up name symbolic (11 bytes); listing compared at a symbolic index k",
+    outside="directories of more than 2 clusters / more than 1 block per cluster; symbolic chain topology (chains are concrete "
+            "per instance because a symbolic next-cluster value makes every block access symbolic); FAT16 roots of other sizes "
+            "(the block count arithmetic BlockCount::from_bytes is covered for 16 entries only); open_dir's use of the entry's "
+            "cluster is the codec result of C18 (cluster 0 + directory = root); names starting with 0xE5 (see known finding)",
+    assumptions=["spec reader of the FAT directory format written in the harness (spec_find / spec_kth_live / slot_matches_entry)"],
+)
+H("C06", "vk_fat", "c06_find_root16", desc="find_directory_entry == spec lookup (first matching slot before the end marker, stored fields)", bounds="FAT16 root 16 slots fully symbolic, name symbolic", timeout=1500, cost=3, mem_gb=20)
+H("C06", "vk_fat", "c06_iterate_root16", desc="iterate_dir == spec listing: count and k-th entry (order, fields), no deleted slot, nothing past the end marker", bounds="FAT16 root 16 slots fully symbolic, k symbolic", timeout=1500, cost=3, mem_gb=20)
+H("C06", "vk_fat", "c06_find_root32_two_clusters", desc="FAT32 root over chain 2->4: lookup continues into the second cluster", bounds="2x16 slots symbolic", timeout=2400, cost=4, mem_gb=24)
+H("C06", "vk_fat", "c06_iterate_root32_two_clusters", tier="thorough", desc="FAT32 root over chain 2->4: listing", bounds="2x16 slots symbolic, k symbolic", timeout=3600, cost=5, mem_gb=24)
+H("C06", "vk_fat", "c06_find_subdir16_two_clusters", desc="FAT16 sub-directory over chain 3->5: lookup follows the chain", bounds="2x16 slots symbolic", timeout=2400, cost=4, mem_gb=24)
+
+PROPS["C03"] = dict(bounds="(in progress)", outside="")
+PROPS["C02"] = dict(bounds="(in progress)", outside="")
+H("C03", "vk_fat", "c03_new_entry_root16", desc="write_new_directory_entry: first free slot gets exactly the new entry, other bytes preserved, only the root block written; full root => NotEnoughSpace, nothing written", bounds="FAT16 root 16 slots fully symbolic, name/attr/clock symbolic", timeout=2400, cost=4, mem_gb=30)
+H("C03", "vk_fat", "c03_delete_entry_root16", desc="delete_directory_entry: first matching slot marked 0xE5, nothing else changes; NotFound writes nothing", bounds="FAT16 root fully symbolic, name symbolic", timeout=1500, cost=3, mem_gb=20)
+H("C02", "vk_fat", "c02_write_entry_fat16_s0", desc="write_entry_to_disk (flush/close): owned slot == FAT layout of the entry, rest of block preserved", bounds="block and entry fully symbolic, slot 0", timeout=1500, cost=3, mem_gb=20)
+H("C02", "vk_fat", "c02_write_entry_fat16_s15", tier="thorough", desc="same, slot 15", bounds="block and entry fully symbolic", timeout=1500, cost=3, mem_gb=20)
+H("C02", "vk_fat", "c02_write_entry_fat32_s7", desc="same, FAT32 (cluster high word), slot 7", bounds="block and entry fully symbolic", timeout=1500, cost=3, mem_gb=20)
+UW_TRUNC = [("truncate_cluster_chain", r".", 6)]
+H("C16", "vk_fat", "c16_update_info_sector", desc="update_info_sector writes count/hint at 488..496, preserves the rest, unknown stays as found", bounds="info sector fully symbolic, record symbolic")
+for n in ["c16_truncate32_chain3", "c16_truncate32_chain2"]:
+    H("C16", "vk_fat", n, desc="truncate_cluster_chain: kept cluster EOC, tail free, frame, both FAT copies equal, free count += clusters freed, hint sane", bounds="concrete chain, record symbolic", unwindset=UW_TRUNC, timeout=1500, cost=3, mem_gb=20)
+for n in ["c16_truncate32_chain1", "c16_truncate32_chain4"]:
+    H("C16", "vk_fat", n, tier="thorough", desc="truncate_cluster_chain on 1- and 4-cluster chains", bounds="concrete chain, record symbolic", unwindset=UW_TRUNC, timeout=1500, cost=3, mem_gb=20)
+
+PROPS["C01"] = dict(bounds="(in progress)", outside="")
+_rd = "VolumeManager::read: count == min(len, left), bytes == byte-array model of the chain, offset/length/eof, cursor cache consistent, no write, other open file untouched"
+for n, t in [("c01_read_start", "quick"), ("c01_read_cross_cluster", "quick"), ("c01_read_backwards_seek", "quick"), ("c01_read_backward_chain", "quick"), ("c01_read_clipped_eof", "quick"),
+             ("c01_read_cross_two", "thorough"), ("c01_read_at_eof", "thorough"), ("c01_read_cursor_behind", "thorough"), ("c01_read_block_aligned", "thorough"), ("c01_read_empty_buffer", "thorough")]:
+    H("C01", "vk_fsop", n, tier=t, desc=_rd, bounds="file contents (4 data clusters) fully symbolic; chain/size/offset/cursor/length concrete per instance", timeout=1200, cost=3, mem_gb=24)
+
+UW_WRITE = UW_ALLOC + [("vk_fsop", r"pos < 2048", 2050)]
+_wr = "VolumeManager::write: bytes in range == payload, other file bytes unchanged, length/offset, chain growth from free clusters linked after the tail, FAT frame, only FAT + own clusters written, other open file untouched, dirty set, cursor cache consistent"
+for n, t, p in [("c01_write_middle", "quick", "C01"), ("c01_write_block_start_partial", "quick", "C01"), ("c01_write_cross_end_midblock", "quick", "C01"), ("c01_write_extend_one", "quick", "C01"),
+             ("c01_write_extend_stale_cursor", "quick", "C01"), ("c01_write_first_cluster", "thorough", "C01"), ("c01_write_full_block", "thorough", "C01"), ("c01_write_extend_within_cluster", "thorough", "C01"),
+             ("c01_write_extend_two", "thorough", "C01"), ("c01_write_backward_chain", "thorough", "C01"), ("c01_write_empty_buffer", "thorough", "C01"),
+             ("c05_write_last_free_cluster", "quick", "C05"), ("c05_write_disk_full_partial", "quick", "C05"), ("c05_write_disk_full_none", "thorough", "C05"),
+             ("c07_write_readonly_refused", "quick", "C07")]:
+    H(p, "vk_fsop", n, tier=t, desc=_wr, bounds="payload (<=600 B), old file contents and root block fully symbolic; chain/size/offset/cursor/length/free map concrete per instance", unwindset=UW_ALLOC, timeout=2400, cost=4, mem_gb=30)
+PROPS["C07"] = dict(bounds="(in progress)", outside="")
